@@ -21,7 +21,13 @@ RULE = ("pose histories (zero / small / large / partially and wholly outside / r
         "translations from far left to far right of the target; planted poses (identity and rigidly moved point sets, sub-box "
         "templates) against random and integer competitor poses; optimize_match with a stub optimiser (all methods x bounds "
         "x start x better/worse/equal result) and with the real scipy optimisers; Kabsch on general / planar / collinear / "
-        "coincident point sets, float32 and float64.  distinct = distinct (component, configuration, input signature); "
+        "coincident point sets, float32 and float64.  Widened: arrays in C / Fortran order, strided / reversed / offset views, "
+        "read-only arrays and read-only memory maps, float64 / float32 / integer coordinates; intensities 1e-9 .. 1e3 with offsets; "
+        "both sign conventions, interpolation orders, thresholds and target masks given or left out; poses as tuple / list / "
+        "arrays (re-used, must stay untouched), near-repeated poses; several objects built from the same arrays evaluated in turn; "
+        "decoy experiments of identical shapes just before the planted one; names registered at run time / near-miss names; a "
+        "caller's own score object in optimize_match; 1 / 2 / thousands of atoms, float32 rotation matrices, weighted RMSD, "
+        "geometric centre.  distinct = distinct (component, configuration, input signature); "
         "single-pose histories, unbounded default-start stub cases whose result equals the start, and identity motions are "
         "trivial and not counted")
 ASSUMPTIONS = [
@@ -34,6 +40,14 @@ ASSUMPTIONS = [
     "FLC's planted-pose clause is evaluated with a full template mask: with a partial mask the template is multiplied by the mask "
     "before it is interpolated, and at sub-voxel generating poses nearby poses score 3-12 % better (observed, reported, not claimed)",
     "bounds are compared in units of 1e-6 (round), scores through an order-preserving integer image of float64",
+    "offsets of the intensities are applied only to scores whose definition keeps the generating pose optimal under them "
+    "(NormalizedCrossCorrelation and FLC by Cauchy-Schwarz, PartialLeastSquareDifference as a sum of squares, MutualInformation "
+    "by invariance); CrossCorrelation / LaplaceCrossCorrelation are scaled only",
+    "FLC's planted value is asserted for float32 targets down to amplitude 1e-3 and for float64 targets down to 1e-9: the "
+    "low-variance guard of the score is the machine epsilon of the target's dtype",
+    "a fresh reference object receives newly allocated arrays of the same layout class and dtype as the object under test "
+    "(bit-exact comparison must not depend on summation order)",
+    "align_structures is exercised without sampling_rate (with it positions are discretised and RMSD ~ 0 is not implied)",
 ]
 TRUSTED = ["C17: scipy.optimize (optimality, constraint tolerance), numpy.linalg.svd (optimal rotation), "
            "scipy.ndimage.map_coordinates and float rounding are exercised, not modelled: planted-pose optimality of the "
@@ -81,6 +95,94 @@ def _micro(v):
 
 def _quiet():
     return contextlib.redirect_stdout(io.StringIO())
+
+
+# ------------------------------------------------------------------------------------------------
+# presentation of the caller's arrays: the same values in another memory layout / dtype / with other flags
+LAYOUTS = ["C", "F", "strided", "reversed", "offset", "readonly", "memmap"]
+_MM = [0]
+
+
+def _present(a, layout="C", dtype=None):
+    """a freshly allocated array with the values of `a` (cast to `dtype`) in the given layout"""
+    a = np.asarray(a)
+    if dtype is not None:
+        a = a.astype(dtype)
+    junk = 2 ** 30 if a.dtype.kind in "iu" else 1e30      # what a mis-addressed read would pick up
+    if layout == "F":
+        return np.array(a, order="F", copy=True)
+    if layout == "strided":          # every second element of a larger buffer, along every axis
+        big = np.full(tuple(2 * s + 1 for s in a.shape), junk, dtype=a.dtype)
+        v = big[tuple(slice(1, 2 * s, 2) for s in a.shape)]
+        v[...] = a
+        return v
+    if layout == "reversed":         # negative strides along every axis
+        r = np.ascontiguousarray(a[tuple(slice(None, None, -1) for _ in a.shape)])
+        return r[tuple(slice(None, None, -1) for _ in a.shape)]
+    if layout == "offset":           # contiguous, but not at the start of (nor aligned in) its buffer
+        buf = np.full(a.size + 3, junk, dtype=a.dtype)
+        v = buf[3:3 + a.size].reshape(a.shape)
+        v[...] = a
+        return v
+    if layout == "readonly":
+        r = np.array(a, order="C", copy=True)
+        r.setflags(write=False)
+        return r
+    if layout == "memmap":           # a read-only memory map, as Density.from_file(use_memmap=True) hands out
+        import os
+        from .. import env
+        _MM[0] += 1
+        path = os.path.join(env.scratch(), f"c17_{os.getpid()}_{_MM[0]}.dat")
+        m = np.memmap(path, mode="w+", dtype=a.dtype, shape=a.shape if a.size else (1,))
+        if a.size:
+            m[...] = a
+        m.flush()
+        del m
+        return np.memmap(path, mode="r", dtype=a.dtype, shape=a.shape)
+    return np.array(a, order="C", copy=True)
+
+
+class _Pres:
+    """how one caller presents target / coordinates / weights / template: layout and dtype per role.
+    `plain` = C-contiguous float64 copies (what the harness handed over before)."""
+
+    def __init__(self, rng=None, plain=False):
+        self.role = {}
+        for r in ("target", "coords", "weights", "template", "mask"):
+            if plain or rng is None:
+                self.role[r] = ("C", None)
+            else:
+                lay = str(rng.choice(LAYOUTS, p=[0.22, 0.2, 0.14, 0.1, 0.1, 0.14, 0.1]))
+                dt = str(rng.choice(["f8", "f4", "i8"], p=[0.45, 0.35, 0.2])) if r == "coords" else \
+                    str(rng.choice(["f8", "f4"], p=[0.55, 0.45]))
+                self.role[r] = (lay, dt)
+
+    def __call__(self, role, a):
+        lay, dt = self.role[role]
+        a = np.asarray(a)
+        if a.dtype == bool:
+            return _present(a, lay)
+        if dt == "i8" and not np.all(a == np.rint(a)):
+            dt = "f8"                 # integer coordinates only for integral values
+        return _present(a, lay, dt)
+
+    def describe(self):
+        return {r: f"{l}/{d or 'f8'}" for r, (l, d) in self.role.items() if (l, d) != ("C", None)}
+
+
+_PLAIN = _Pres(plain=True)
+
+
+def _container(rng, x, kinds=("tuple", "list", "f8", "f4")):
+    """a pose in the container a caller may use (scipy hands float64 arrays, examples use tuples)"""
+    k = str(rng.choice(list(kinds)))
+    if k == "list":
+        return [float(v) for v in x], k
+    if k == "f8":
+        return np.array(x, dtype=np.float64), k
+    if k == "f4":
+        return np.array(x, dtype=np.float32), k
+    return tuple(float(v) for v in x), k
 
 
 # ------------------------------------------------------------------------------------------------
@@ -199,21 +301,25 @@ def _scene(rng, n=None):
     return data, coords.astype(np.float64), w
 
 
-def _make(mo, name, fam, data, coords, w, mask="full", negate=True, tcoords=None, **kw):
+def _make(mo, name, fam, data, coords, w, mask="full", negate=True, tcoords=None, P=None, tmask=None, tweights=None, **kw):
+    """P: presentation of the arrays (_Pres); tmask: the target mask (default: data > 0.05); tweights: target weights (c2c)"""
+    P = P or _PLAIN
     if fam == "c2d":
         mc = None if mask == "none" else coords if mask == "full" else coords[:, ::2]
-        tm = None if mask == "none" and name != "MaskedCrossCorrelation" else (data > 0.05)
+        tm = None if mask == "none" and name != "MaskedCrossCorrelation" else ((data > 0.05) if tmask is None else tmask)
         if name == "MaskedCrossCorrelation" and mc is None:
             mc = coords
-        return mo.create_score_object(name, target=data.copy(), target_mask=tm, template_coordinates=coords.copy(),
-                                      template_weights=w.copy(), template_mask_coordinates=None if mc is None else mc.copy(),
+        return mo.create_score_object(name, target=P("target", data), target_mask=None if tm is None else P("mask", tm),
+                                      template_coordinates=P("coords", coords), template_weights=P("weights", w),
+                                      template_mask_coordinates=None if mc is None else P("coords", mc),
                                       negate_score=negate, **kw)
     if fam == "c2c":
         tc = coords if tcoords is None else tcoords
-        mc = None if mask == "none" else coords[:, ::2].copy()
-        return mo.create_score_object(name, target_coordinates=tc.copy(), target_weights=w.copy(),
-                                      template_coordinates=coords.copy(), template_weights=w.copy(),
-                                      template_mask_coordinates=mc, negate_score=negate)
+        mc = None if mask == "none" else coords[:, ::2]
+        tw = w if tweights is None else tweights
+        return mo.create_score_object(name, target_coordinates=P("coords", tc), target_weights=P("weights", tw),
+                                      template_coordinates=P("coords", coords), template_weights=P("weights", w),
+                                      template_mask_coordinates=None if mc is None else P("coords", mc), negate_score=negate)
     raise ValueError(fam)
 
 
@@ -241,6 +347,16 @@ def _rand_pose(rng, kind, extent):
 POSE_KINDS = ["zero", "small", "large", "int", "edge", "outside", "neg-frac"]
 
 
+def _near(rng, x):
+    """the previous pose moved by less than np.allclose / a rounding to 3-5 decimals would notice (but far more than
+    a float32 ulp of the coordinates it produces): what an optimiser's line search evaluates next"""
+    x = np.asarray(x, dtype=float)
+    rel = float(rng.choice([5e-6, 1e-4, 1e-3]))
+    mag = np.abs(x) if rel < 1e-5 else np.maximum(np.abs(x), 1.0)     # 5e-6: inside allclose's default rtol on every component
+    d = rel * mag * rng.choice([-1.0, 1.0], x.size)
+    return tuple(float(v) for v in x + d)
+
+
 def _history(rng, extent, length):
     poses, kinds = [], []
     for i in range(length):
@@ -248,6 +364,9 @@ def _history(rng, extent, length):
             j = int(rng.integers(0, i))
             poses.append(poses[j])
             kinds.append("repeat")
+        elif i >= 1 and rng.random() < 0.2:
+            poses.append(_near(rng, poses[-1]))
+            kinds.append("near-repeat")
         else:
             k = str(rng.choice(POSE_KINDS, p=[0.08, 0.25, 0.2, 0.1, 0.15, 0.12, 0.1]))
             poses.append(_rand_pose(rng, k, extent))
@@ -278,21 +397,49 @@ def _buf(o, attr):
 
 
 # ------------------------------------------------------------------------------------------------
-def _sec_interface(ctx, mo, reg, fam, rng, n_pose):
+def _sec_interface(ctx, mo, reg, fam, rng, n_pose, n_extra=3):
     """every registered score can be evaluated through score(x) / score_translation / score_angles"""
-    data, coords, w = _scene(rng)
+    data0, coords, w0 = _scene(rng)
     for name in reg:
-        for mask, layout in (("full", "C"), ("none", "C"), ("full", "F")):
+        cases = [("full", "C", None), ("none", "C", None), ("full", "F", None)]
+        # the caller's arrays in other layouts / dtypes / flags, other absolute intensities, options given or left out
+        cases += [(str(rng.choice(["full", "none"])), "C", _Pres(rng)) for _ in range(n_extra)]
+        for mask, layout, P in cases:
             if layout == "F" and fam[name] != "d2d":
                 continue
             inp = {"score": name, "mask": mask, "template_layout": layout}
+            data, w, kw = data0, w0, {}
+            if P is not None:
+                sc = float(rng.choice([1e-3, 1.0, 1e2, 1e3]))
+                off = float(rng.choice([0.0, 0.0, 0.5, 5.0])) * sc
+                data = data0 * sc + off
+                w = w0 * sc + off
+                kw["negate"] = bool(rng.random() < 0.5)
+                if fam[name] == "c2d" and rng.random() < 0.5:
+                    kw["interpolation_order"] = int(rng.choice([0, 1, 3]))
+                if name == "Envelope" and rng.random() < 0.6:
+                    kw["target_threshold"] = float(rng.choice([0.0, float(np.mean(data)), float(np.quantile(data, 0.9))]))
+                if fam[name] == "d2d":
+                    if rng.random() < 0.5:
+                        kw["target_mask"] = np.ones(data.shape) if rng.random() < 0.5 else (data0 > np.quantile(data0, 0.2)).astype(float)
+                    kw["interpolation_order"] = int(rng.choice([1, 3]))
+                inp.update({"arrays": P.describe(), "scale": sc, "offset": off,
+                            "options": {k: (v if not isinstance(v, np.ndarray) else "array") for k, v in kw.items()}})
+                ctx.count("interface:presented")
+                for r_, (l_, d_) in P.role.items():
+                    ctx.count(f"interface:layout={l_}")
             try:
                 with _quiet():
-                    o = _make_any(mo, name, fam[name], data, coords, w, mask, layout=layout)
+                    o = _make_any(mo, name, fam[name], data, coords, w, mask, layout=layout, P=P, **kw)
                 vals = []
                 for _ in range(n_pose):
                     x = _rand_pose(rng, str(rng.choice(POSE_KINDS)), data.shape[0])
-                    vals.append(_val(o.score(x))[0])
+                    if P is not None:      # the pose as tuple / list / float64 or float32 array, positionally or as `x=`
+                        x, ck = _container(rng, x)
+                        ctx.count("interface:pose-container=" + ck)
+                        vals.append(_val(o.score(x=x) if rng.random() < 0.5 else o.score(x))[0])
+                    else:
+                        vals.append(_val(o.score(x))[0])
                 tr = tuple(float(v) for v in rng.normal(0, 1, 3))
                 an = tuple(float(v) for v in rng.normal(0, 10, 3))
                 pz = ctx.driver.call("c17.poseOf", x=[1, 2, 3])
@@ -306,20 +453,26 @@ def _sec_interface(ctx, mo, reg, fam, rng, n_pose):
             ctx.spec("every registered score evaluates through score(x) to a finite value", inp, ok, detail,
                      key=f"callable:{name}")
             ctx.count(f"interface:{fam[name]}")
-            ctx.distinct(("interface", name, mask, layout))
+            ctx.distinct(("interface", name, mask, layout, None if P is None else sorted(inp["arrays"].items()), inp.get("scale")))
 
 
-def _make_any(mo, name, fam, data, coords, w, mask="full", negate=True, layout="C", **kw):
+def _make_any(mo, name, fam, data, coords, w, mask="full", negate=True, layout="C", P=None, target_mask=None, **kw):
     if fam == "d2d":
         n = data.shape
         lo = [int(s // 4) for s in n]
         tmpl = data[tuple(slice(a, a + s // 2) for a, s in zip(lo, n))].copy()
-        m = None if mask == "none" else (tmpl > 0.02).astype(np.float32) if mask == "sub" else np.ones_like(tmpl)
+        m = None if mask == "none" else (tmpl > np.median(tmpl)).astype(np.float32) if mask == "sub" else np.ones_like(tmpl)
         if layout == "F":          # the same values in Fortran order (what vol.T / np.asfortranarray hand over)
             tmpl = np.asfortranarray(tmpl)
             m = None if m is None else np.asfortranarray(m)
-        return mo.create_score_object(name, target=data.copy(), template=tmpl, template_mask=m, negate_score=negate, **kw)
-    return _make(mo, name, fam, data, coords, w, mask, negate, **kw)
+        if P is not None:
+            tmpl = P("template", tmpl)
+            m = None if m is None else P("mask", m)
+        if target_mask is not None:
+            kw["target_mask"] = target_mask if P is None else P("mask", target_mask)
+        return mo.create_score_object(name, target=data.copy() if P is None else P("target", data), template=tmpl,
+                                      template_mask=m, negate_score=negate, **kw)
+    return _make(mo, name, fam, data, coords, w, mask, negate, P=P, **kw)
 
 
 def _sec_pose(ctx, mo, rng, n):
@@ -343,6 +496,30 @@ def _sec_pose(ctx, mo, rng, n):
             ctx.spec("pose -> (translation, proper rotation of the angles)", inp, ok, key="format_pose")
             ctx.distinct(("pose", tuple(round(v, 3) for v in x)))
         ctx.count(f"pose:d={d}")
+    # sequences of poses that differ only slightly (what an optimiser evaluates), in the containers callers use,
+    # against a reference that shares nothing with the library (a memo keyed on rounded angles would hand out
+    # the matrix of an earlier pose): float32 matrix entries, |error| <= 2^-24 + float64 noise -> atol 1e-6
+    from scipy.spatial.transform import Rotation
+    for s_ in range(max(2, n // 8)):
+        base = np.concatenate([rng.normal(0, 3, 3), rng.uniform(-180, 180, 3)])
+        seq = [base]
+        for _ in range(6):
+            step = float(rng.choice([1e-3, 1e-2, 0.04, 0.3, 0.49, 0.5, 1.0]))
+            seq.append(seq[-1] + step * rng.choice([-1.0, 0.0, 1.0], 6))
+        seq.append(base.copy())
+        for j, xs in enumerate(seq):
+            xc, ck = _container(rng, xs, kinds=("tuple", "list", "f8"))
+            before = np.array(xc, dtype=np.float64)
+            t, R = mo._format_rigid_transform(xc)
+            want = Rotation.from_euler("zyx", before[3:], degrees=True).as_matrix()
+            ok = bool(np.array_equal(np.asarray(t, dtype=np.float64), before[:3])
+                      and np.abs(np.asarray(R, dtype=np.float64) - want).max() <= 1e-6
+                      and np.array_equal(np.array(xc, dtype=np.float64), before))
+            ctx.spec("pose -> (translation, proper rotation of the angles)",
+                     {"x": [float(v) for v in before], "container": ck, "previous": [float(v) for v in seq[j - 1]] if j else None},
+                     ok, {"max_dev": float(np.abs(np.asarray(R, dtype=np.float64) - want).max())}, key="format_pose")
+            ctx.count("pose:near-sequence")
+        ctx.distinct(("pose-seq", tuple(round(float(v), 3) for v in base)))
 
 
 def _c2x_buffers(fam):
@@ -360,8 +537,33 @@ def _sec_history_coords(ctx, mo, reg, fam, rng, n_hist, length, names=None, agre
             kw = {}
             if fam[name] == "c2d" and hasattr(reg[name], "grad") and rng.random() < 0.4:
                 kw["return_gradient"] = True
+            if rng.random() < 0.6:
+                # options and arrays as other callers give them: sign convention, interpolation order, envelope threshold,
+                # absolute intensities, memory layouts / dtypes / read-only arrays (a fresh allocation per object)
+                kw["negate"] = bool(rng.random() < 0.5)
+                kw["P"] = _Pres(rng)
+                if fam[name] == "c2d":
+                    if rng.random() < 0.5:
+                        kw["interpolation_order"] = int(rng.choice([0, 3]))
+                    sc = float(rng.choice([1e-3, 1.0, 1e3]))
+                    off = float(rng.choice([0.0, 0.5, 5.0])) * sc
+                    kw["tmask"] = data > 0.05
+                    data, w = data * sc + off, w * sc + off
+                    if name == "Envelope" and rng.random() < 0.6:
+                        kw["target_threshold"] = float(rng.choice([0.0, float(np.quantile(data, 0.8))]))
+                ctx.count("history:presented")
             L = int(rng.integers(2, length + 1))
             poses, kinds = _history(rng, data.shape[0], L)
+            try:
+                with _quiet():
+                    A = _make(mo, name, fam[name], data, coords, w, mask, **kw)
+                A.score(poses[0])
+            except Exception as e:  # noqa
+                ctx.spec("every registered score evaluates through score(x) to a finite value",
+                         {"score": name, "mask": mask, "pose": poses[0],
+                          "kw": {k: (v.describe() if isinstance(v, _Pres) else "array" if isinstance(v, np.ndarray) else v) for k, v in kw.items()}},
+                         False, f"{type(e).__name__}: {e}", key=f"callable:{name}")
+                continue
             with _quiet():
                 A = _make(mo, name, fam[name], data, coords, w, mask, **kw)
             bufs = _c2x_buffers(fam[name])
@@ -376,7 +578,9 @@ def _sec_history_coords(ctx, mo, reg, fam, rng, n_hist, length, names=None, agre
                 if KIND.get(name) == "normalised":
                     flag = bool(np.linalg.norm(B.template_weights) * np.linalg.norm(B._target_values) > 0)
                 rowsB.append((vb, {b: _buf(B, at) for b, at in bufs.items()}, float(getattr(B, "denominator", 1)), flag))
-            inp = {"score": name, "mask": mask, "kw": kw, "poses": poses, "shape": data.shape, "points": int(coords.shape[1])}
+            kwd = {k: (v.describe() if isinstance(v, _Pres) else "array" if isinstance(v, np.ndarray) else v) for k, v in kw.items()}
+            inp = {"score": name, "mask": mask, "kw": kwd, "poses": poses, "shape": data.shape, "points": int(coords.shape[1]),
+                   "target_range": [float(data.min()), float(data.max())]}
             for j, x in enumerate(poses):
                 ctx.spec("score(x) does not depend on the poses evaluated before", {**inp, "call": j},
                          _same(rowsA[j][0], rowsB[j][0]), {"history": rowsA[j][0][0], "fresh": rowsB[j][0][0]},
@@ -454,26 +658,47 @@ def _sec_history_flc(ctx, mo, rng, n_hist, length, agree=True):
         n = int(rng.integers(10, 15))
         data = _blob(rng, (n, n + int(rng.integers(0, 3)), n + int(rng.integers(0, 3)))) + 0.05 * rng.random((1,))[0]
         data = data + 0.02 * rng.random(data.shape)
-        shape = tuple(int(rng.integers(3, 8)) for _ in range(3))
+        shape = [int(rng.integers(3, 8)) for _ in range(3)]
+        if rng.random() < 0.1:        # an axis along which the template is as long as the target (no room to move)
+            ax = int(rng.integers(0, 3))
+            shape[ax] = data.shape[ax]
+        shape = tuple(shape)
         lo = [int(rng.integers(0, N - s + 1)) for s, N in zip(shape, data.shape)]
+        # absolute intensities (the normalised score must not care), the caller's arrays in other layouts / dtypes,
+        # a target mask given or left out
+        sc = float(rng.choice([1e-3, 1.0, 1.0, 1e2, 1e3]))
+        data = data * sc + float(rng.choice([0.0, 0.0, 0.5, 5.0])) * sc
         tmpl = data[tuple(slice(a, a + s) for a, s in zip(lo, shape))].copy()
         mk = str(rng.choice(["ones", "sub", "none"]))
         m = None if mk == "none" else np.ones_like(tmpl) if mk == "ones" else (tmpl > np.median(tmpl)).astype(np.float32)
         rot_mask = bool(rng.random() < 0.7)
         order = int(rng.choice([1, 1, 3]))
+        P = _Pres(rng) if rng.random() < 0.5 else _PLAIN
+        tmk = str(rng.choice(["none", "none", "ones", "partial"]))
+        tmask = None if tmk == "none" else np.ones(data.shape) if tmk == "ones" else (data > np.quantile(data, 0.15)).astype(float)
 
         def new():
             with _quiet():
-                return mo.create_score_object("FLC", target=data.copy(), template=tmpl.copy(),
-                                              template_mask=None if m is None else m.copy(), rotate_mask=rot_mask,
-                                              interpolation_order=order)
+                kw_ = {} if tmask is None else {"target_mask": P("mask", tmask)}
+                return mo.create_score_object("FLC", target=P("target", data), template=P("template", tmpl),
+                                              template_mask=None if m is None else P("mask", m), rotate_mask=rot_mask,
+                                              interpolation_order=order, **kw_)
         L = int(rng.integers(2, length + 1))
         kinds = [str(rng.choice(FLC_KINDS)) for _ in range(L)]
         poses = [_flc_pose(rng, k, shape, data.shape) for k in kinds]
-        for i in range(2, L):
-            if rng.random() < 0.2:
+        for i in range(1, L):
+            r_ = rng.random()
+            if i >= 2 and r_ < 0.2:
                 poses[i], kinds[i] = poses[int(rng.integers(0, i))], "repeat"
-        A = new()
+            elif r_ > 0.85:
+                poses[i], kinds[i] = _near(rng, poses[i - 1]), "near-repeat"
+        try:
+            A = new()
+        except Exception as e:  # noqa
+            ctx.spec("every registered score evaluates through score(x) (no pose is rejected)",
+                     {"template_shape": shape, "target_shape": data.shape, "mask": mk, "rotate_mask": rot_mask, "order": order,
+                      "target_mask": tmk, "arrays": P.describe()}, False, f"construction: {type(e).__name__}: {e}", key="callable:FLC")
+            continue
         mask0 = _buf(A, "template_mask_rot")
         attrs = {"gridOut": "grid_out", "templateRot": "template_rot", "maskRot": "template_mask_rot"}
         rowsA, rowsB = [], []
@@ -490,7 +715,8 @@ def _sec_history_flc(ctx, mo, rng, n_hist, length, agree=True):
             except Exception as e:  # noqa
                 vb = ("raised:" + type(e).__name__, None)
             rowsB.append((vb, {b: _buf(B, at) for b, at in attrs.items()}, _buf(B, "grid")))
-        inp = {"template_shape": shape, "target_shape": data.shape, "mask": mk, "rotate_mask": rot_mask, "order": order, "poses": poses}
+        inp = {"template_shape": shape, "target_shape": data.shape, "mask": mk, "rotate_mask": rot_mask, "order": order, "poses": poses,
+               "target_mask": tmk, "arrays": P.describe(), "target_range": [float(data.min()), float(data.max())]}
         for j, x in enumerate(poses):
             a, b = rowsA[j][0], rowsB[j][0]
             # tiny templates with a partial, un-rotated mask can have zero variance under the mask after the motion:
@@ -540,8 +766,232 @@ def _sec_history_flc(ctx, mo, rng, n_hist, length, agree=True):
             ctx.agree("FLC buffer provenance and overlap windows along a history", inp, impl, model)
         ctx.distinct(("flc-history", shape, data.shape, mk, rot_mask, tuple(kinds)))
         ctx.count(f"flc:mask={mk}:rotate={rot_mask}")
+        ctx.count(f"flc:target_mask={tmk}")
+        ctx.count("flc:arrays=" + ("plain" if P is _PLAIN else "presented"))
     ctx.sample({"check": "flc-history", "template": shape, "target": data.shape, "pose": [round(v, 2) for v in poses[0]],
                 "template_slices": rowsA[0][2], "target_slices": rowsA[0][3], "value": rowsA[0][0][0]}, limit=4)
+
+
+def _sec_registry(ctx, mo, reg, fam, rng, n_names):
+    """the common interface by name: scores registered at run time (names that differ from present ones only by length or
+    case) are created and evaluated, names that are not registered are refused with the documented ValueError, gradients
+    are honoured or refused at construction, an unsupported optimiser is refused with the documented ValueError"""
+    data, coords, w = _scene(rng, 16)
+    saved = dict(mo.MATCHING_OPTIMIZATION_REGISTER)
+
+    class _UserScore(mo._MatchCoordinatesToDensity):
+        """a user-defined score: mean interpolated density at the moved template points"""
+
+        def __call__(self):
+            return float(np.mean(self._target_values)) * self.score_sign
+    kwargs = lambda: dict(target=data.copy(), template_coordinates=coords.copy(), template_weights=w.copy())  # noqa
+    x = _rand_pose(rng, "small", data.shape[0])
+    with _quiet():
+        want = float(_UserScore(**kwargs()).score(x))
+    bases = [str(b) for b in rng.permutation(sorted(saved))[:n_names]]
+    try:
+        for base in bases:
+            for new in (base + "2", base[:-1], base.lower(), base.upper(), base + " ", " " + base, base[:8]):
+                if new in saved or new in mo.MATCHING_OPTIMIZATION_REGISTER:
+                    continue
+                inp = {"registered": sorted(saved), "name": new, "near": base}
+                # (1) not registered: refused, with ValueError
+                try:
+                    with _quiet():
+                        o = mo.create_score_object(new, **kwargs())
+                    got = f"returned {type(o).__name__}"
+                except ValueError:
+                    got = "ValueError"
+                except Exception as e:  # noqa
+                    got = f"{type(e).__name__}: {e}"
+                ctx.spec("a name that is not registered is refused with ValueError", inp, got == "ValueError", got,
+                         key="registry:unknown-name")
+                # (2) registered at run time: created and evaluated through the common interface; present names keep their class
+                try:
+                    with _quiet():
+                        mo.register_matching_optimization(new, _UserScore)
+                        o = mo.create_score_object(new, **kwargs())
+                        v = float(o.score(x))
+                        ob = None
+                        if fam[base] == "c2d":
+                            ob = _make(mo, base, "c2d", data, coords, w, "full")
+                        elif fam[base] == "c2c":
+                            ob = _make(mo, base, "c2c", data, coords, w, "none")
+                        else:
+                            ob = _make_any(mo, base, "d2d", data, coords, w, "full")
+                    ok = type(o) is _UserScore and v == want and type(ob) is saved[base]
+                    detail = {"created": type(o).__name__, "value": v, "want": want, base: type(ob).__name__}
+                except Exception as e:  # noqa
+                    ok, detail = False, f"{type(e).__name__}: {e}"
+                finally:
+                    mo.MATCHING_OPTIMIZATION_REGISTER.pop(new, None)
+                ctx.spec("a score registered at run time is created and evaluated through the common interface", inp, ok, detail,
+                         key="registry:custom")
+                ctx.distinct(("registry", base, new))
+                ctx.count("registry:near-name")
+    finally:
+        for k in list(mo.MATCHING_OPTIMIZATION_REGISTER):
+            if k not in saved:
+                del mo.MATCHING_OPTIMIZATION_REGISTER[k]
+        mo.MATCHING_OPTIMIZATION_REGISTER.update(saved)
+    # gradients: (score, 6 finite float64 numbers) where the class has them, refused at construction otherwise
+    for name in reg:
+        if fam[name] != "c2d":
+            continue
+        inp = {"score": name, "return_gradient": True}
+        try:
+            with _quiet():
+                o = _make(mo, name, "c2d", data, coords, w, "full", return_gradient=True)
+            v = o.score(_container(rng, x)[0])
+            ok = hasattr(reg[name], "grad") and isinstance(v, tuple) and len(v) == 2 and np.isfinite(float(v[0])) \
+                and np.asarray(v[1]).shape == (6,) and np.asarray(v[1]).dtype == np.float64 and bool(np.all(np.isfinite(v[1])))
+            detail = {"has_grad": hasattr(reg[name], "grad"), "returned": type(v).__name__}
+        except NotImplementedError:
+            ok, detail = not hasattr(reg[name], "grad"), "NotImplementedError at construction"
+        except Exception as e:  # noqa
+            ok, detail = False, f"{type(e).__name__}: {e}"
+        ctx.spec("return_gradient=True yields (score, float64 gradient of length 6) or is refused at construction", inp, ok, detail,
+                 key=f"gradient:{name}")
+        ctx.count("registry:gradient")
+    # the optimiser's name
+    with _quiet():
+        o = _make(mo, "CrossCorrelation", "c2d", data, coords, w, "none")
+    for bad in ("Minimize", "minimise", "basin_hopping", "differential-evolution", "", "minimize "):
+        try:
+            with _quiet():
+                mo.optimize_match(o, optimization_method=bad, maxiter=1)
+            got = "returned"
+        except ValueError:
+            got = "ValueError"
+        except Exception as e:  # noqa
+            got = f"{type(e).__name__}: {e}"
+        ctx.spec("an unsupported optimisation method is refused with ValueError", {"optimization_method": bad}, got == "ValueError", got,
+                 key="opt:unsupported-method")
+        ctx.count("registry:bad-method")
+
+
+def _sec_interleaved(ctx, mo, reg, fam, rng, n_groups, length):
+    """several score objects alive in one process, built from the SAME arrays (as a caller comparing scores does) and
+    evaluated in turn; poses handed over as tuples / lists / arrays, the same array object re-used.  Every value must be
+    the value of a fresh object built from untouched copies and evaluated at that pose only: state shared between
+    objects (class- or module-level scratch, caches keyed by shape / centre only, the caller's arrays written to) or kept
+    across calls (a memo on the last pose) shows up as a difference."""
+    names_c = [k for k in reg if fam[k] in ("c2d", "c2c")]
+    for g in range(n_groups):
+        data, coords, w = _scene(rng)
+        sc = float(rng.choice([1e-3, 1.0, 1.0, 1e3]))
+        data, w = data * sc, w * sc
+        P = _Pres(rng) if rng.random() < 0.6 else _PLAIN
+        live = {"target": P("target", data), "coords": P("coords", coords), "weights": P("weights", w),
+                "tmask": P("mask", data > 0.05 * sc), "ones": None}
+        pristine = {k: (None if v is None else np.array(v, copy=True)) for k, v in live.items()}
+        k_obj = int(rng.integers(2, 5))
+        specs = []
+        flc_pair = rng.random() < 0.5
+        for i in range(k_obj):
+            if flc_pair and i < 2:
+                # two density scores whose templates differ by one voxel along some axes: same floor(extent / 2)
+                if i == 0:
+                    half = [int(rng.integers(2, 4)) for _ in range(3)]
+                    lo = [int(rng.integers(0, N - 2 * h_ - 1)) for h_, N in zip(half, data.shape)]
+                ext = [2 * h_ + (int(rng.random() < 0.6) if i == 1 else 0) for h_ in half]
+                if i == 1 and ext == [2 * h_ for h_ in half]:
+                    ext[int(rng.integers(0, 3))] += 1
+                specs.append({"name": "FLC", "lo": list(lo), "ext": ext, "mask": str(rng.choice(["ones", "sub", "none"])),
+                              "rotate_mask": bool(rng.random() < 0.7), "order": int(rng.choice([1, 3])),
+                              "target_mask": bool(rng.random() < 0.3)})
+            else:
+                nm = str(rng.choice(names_c))
+                specs.append({"name": nm, "mask": "full" if nm == "MaskedCrossCorrelation" else str(rng.choice(["full", "none"])),
+                              "negate": bool(rng.random() < 0.5),
+                              "order": int(rng.choice([1, 1, 3])) if fam[nm] == "c2d" else None})
+
+        def build(sp_, src):
+            """src: the arrays handed over (the live ones are shared by all objects of the group)"""
+            with _quiet():
+                if sp_["name"] == "FLC":
+                    box = tuple(slice(a, a + e) for a, e in zip(sp_["lo"], sp_["ext"]))
+                    tmpl = src["target"][box]                      # a view into the caller's target
+                    m = None if sp_["mask"] == "none" else np.ones(sp_["ext"]) if sp_["mask"] == "ones" else \
+                        (np.asarray(tmpl) > np.median(np.asarray(tmpl))).astype(np.float32)
+                    kw_ = {"target_mask": src["tmask"].astype(float)} if sp_["target_mask"] else {}
+                    return mo.create_score_object("FLC", target=src["target"], template=tmpl, template_mask=m,
+                                                  rotate_mask=sp_["rotate_mask"], interpolation_order=sp_["order"], **kw_)
+                if fam[sp_["name"]] == "c2c":
+                    return mo.create_score_object(sp_["name"], target_coordinates=src["coords"], target_weights=src["weights"],
+                                                  template_coordinates=src["coords"], template_weights=src["weights"],
+                                                  template_mask_coordinates=None if sp_["mask"] == "none" else src["coords"],
+                                                  negate_score=sp_["negate"])
+                return mo.create_score_object(sp_["name"], target=src["target"], target_mask=src["tmask"],
+                                              template_coordinates=src["coords"], template_weights=src["weights"],
+                                              template_mask_coordinates=None if sp_["mask"] == "none" else src["coords"],
+                                              negate_score=sp_["negate"], interpolation_order=sp_["order"])
+
+        def fresh_src():
+            return {k: (None if v is None else np.array(v, copy=True)) for k, v in pristine.items()}
+
+        def ev(o, x):
+            try:
+                return _val(o.score(x))
+            except Exception as e:  # noqa
+                return ("raised:" + type(e).__name__, None)
+        objs = []
+        for sp_ in specs:
+            try:
+                objs.append(build(sp_, live))
+            except Exception as e:  # noqa
+                objs.append(None)
+                ctx.spec("every registered score evaluates through score(x) (no pose is rejected)",
+                         {"score": sp_["name"], "spec": sp_, "arrays": P.describe(), "group": [q["name"] for q in specs]}, False,
+                         f"construction: {type(e).__name__}: {e}", key=f"callable:{sp_['name']}")
+        L = int(rng.integers(3, length + 1)) * k_obj
+        pool = []       # pose containers already used (re-used by reference)
+        trace = []
+        for step in range(L):
+            i = int(rng.integers(0, k_obj))
+            if objs[i] is None:
+                continue
+            sp_ = specs[i]
+            r_ = rng.random()
+            if pool and r_ < 0.25:
+                xc, ck = pool[int(rng.integers(0, len(pool)))]
+                kind = "reused-container"
+            else:
+                if pool and r_ < 0.45:
+                    x = _near(rng, np.array(pool[-1][0], dtype=float))
+                    kind = "near-repeat"
+                elif sp_["name"] == "FLC":
+                    kind = str(rng.choice(FLC_KINDS))
+                    x = _flc_pose(rng, kind, sp_["ext"], data.shape)
+                else:
+                    kind = str(rng.choice(POSE_KINDS))
+                    x = _rand_pose(rng, kind, data.shape[0])
+                xc, ck = _container(rng, x)
+                pool.append((xc, ck))
+            before = np.array(xc, dtype=np.float64)
+            va = ev(objs[i], xc)
+            unchanged = bool(np.array_equal(np.array(xc, dtype=np.float64), before))
+            B = build(sp_, fresh_src())
+            xb = np.array(xc, copy=True) if isinstance(xc, np.ndarray) else type(xc)(xc)
+            vb = ev(B, xb)
+            inp = {"score": sp_["name"], "spec": sp_, "alive": [q["name"] + (str(q["ext"]) if "ext" in q else "") for q in specs],
+                   "object": i, "step": step, "arrays": P.describe(), "scale": sc, "pose": [float(v) for v in before], "container": ck,
+                   "evaluated_before": trace[-6:]}
+            ok_call = not isinstance(va[0], str)
+            ctx.spec("every registered score evaluates through score(x) (no pose is rejected)", inp, ok_call, va[0],
+                     key=f"callable:{sp_['name']}")
+            same = (va[0] == vb[0] and va[1] == vb[1]) or (ok_call and not isinstance(vb[0], str) and va[0] != va[0] and vb[0] != vb[0])
+            ctx.spec("score(x) does not depend on the poses evaluated before", inp, same, {"history": va[0], "fresh": vb[0]},
+                     key=f"repeat:{sp_['name']}")
+            ctx.spec("score(x) leaves the caller's pose untouched", inp, unchanged, {"before": before, "after": np.array(xc, dtype=float)},
+                     key=f"pose-unchanged:{sp_['name']}")
+            trace.append((i, sp_["name"], [round(float(v), 4) for v in before]))
+            ctx.count("interleaved:pose=" + kind)
+            ctx.count("interleaved:container=" + ck)
+        ctx.count(f"interleaved:objects={k_obj}")
+        ctx.count("interleaved:flc-pair" if flc_pair else "interleaved:mixed")
+        ctx.distinct(("interleaved", tuple(q["name"] for q in specs), tuple(sorted(P.describe().items())), g, L))
+    ctx.sample({"check": "interleaved", "alive": [q["name"] for q in specs], "arrays": P.describe(), "last": trace[-3:]}, limit=9)
 
 
 def _sec_windows(ctx, rng, nmax):
@@ -576,22 +1026,47 @@ def _competitors(rng, xp, n, extent):
     return out
 
 
-def _flc_planted(mo, rng, data, variant):
-    """template T with T_rot(o) == target[v + o] at the pose (v + sub, angles): T(u) = target(v + c + R(u - c + sub))"""
+def _flc_planted(mo, rng, data, variant, pres=None, decoy=None):
+    """template T with T_rot(o) == target[v + o] at the pose (v + sub, angles): T(u) = target(v + c + R(u - c + sub)).
+    pres: (P, scale, offset, target-mask kind, negate) - how the caller presents the same experiment"""
     from scipy.ndimage import map_coordinates
     from scipy.spatial.transform import Rotation
+    P, sc, off, tmk, negate = pres or (None, 1.0, 0.0, "none", True)
+    give = (lambda role, a: a) if P is None else P
     lo = np.array([int(rng.integers(2, N // 3)) for N in data.shape])
     ext = tuple(int(rng.integers(N // 3, N // 2)) for N in data.shape)
+    kw = {"negate_score": negate}
+    if tmk != "none":    # a target mask that is 1 wherever the planted window lies (all ones, or a box around the window)
+        tm = np.ones(data.shape)
+        if tmk == "box":
+            tm[:] = 0
+            tm[tuple(slice(max(a - 3, 0), a + e + 4) for a, e in zip(lo, ext))] = 1
+        kw["target_mask"] = give("mask", tm)
+    rev = (slice(None, None, -1),) * 3
+
+    def build(target, tmpl, order=None):
+        kw_ = dict(kw) if order is None else dict(kw, interpolation_order=order)
+        if decoy:
+            # another experiment with arrays of the same shapes and dtypes but other content, evaluated at the very same
+            # pose just before (kept alive or dropped): nothing of it may be found again in the object under test
+            d_ = mo.create_score_object("FLC", target=give("target", target[rev]), template=give("template", tmpl[rev]),
+                                        template_mask=give("mask", np.ones_like(tmpl)), **kw_)
+            d_.score(tuple(xp_))
+            keep.append(d_ if decoy == "keep" else None)
+        return mo.create_score_object("FLC", target=give("target", target), template=give("template", tmpl),
+                                      template_mask=give("mask", np.ones_like(tmpl)), **kw_)
+    keep = []
     if variant == "identity":
-        datan = data + 0.01 * rng.random(data.shape)
+        datan = (data + 0.01 * rng.random(data.shape)) * sc + off
         tmpl = datan[tuple(slice(a, a + e) for a, e in zip(lo, ext))].copy()
-        o = mo.create_score_object("FLC", target=datan, template=tmpl, template_mask=np.ones_like(tmpl))
-        return o, np.array([*lo, 0, 0, 0], dtype=float)
+        xp_ = np.array([*lo, 0, 0, 0], dtype=float)
+        o = build(datan, tmpl)
+        return o, xp_, keep
     # a band-limited texture on top of the blob: windows of a smooth blob are nearly indistinguishable for a
     # normalised score (other windows reach -0.998), which would leave the clause to interpolation error
     from scipy.ndimage import gaussian_filter
     tex = gaussian_filter(rng.normal(size=data.shape), 1.0)
-    data = data + 0.5 * tex / tex.std()
+    data = (data + 0.5 * tex / tex.std()) * sc + off
     sub = rng.uniform(0.15, 0.85, 3) * (rng.random(3) < 0.8)
     ang = rng.uniform(-15, 15, 3) if variant == "rigid" else np.zeros(3)
     R = Rotation.from_euler("zyx", ang, degrees=True).as_matrix()
@@ -599,14 +1074,14 @@ def _flc_planted(mo, rng, data, variant):
     u = np.indices(ext).reshape(3, -1).astype(float)
     pos = (lo + c)[:, None] + R @ (u - c[:, None] + sub[:, None])
     tmpl = map_coordinates(data, pos, order=3, mode="constant").reshape(ext)
-    mask = np.ones(ext)   # full mask: see ASSUMPTIONS
-    o = mo.create_score_object("FLC", target=data.copy(), template=tmpl, template_mask=mask,
-                               interpolation_order=3 if variant == "rigid" else int(rng.choice([1, 3])))
-    return o, np.array([*(lo + sub), *ang], dtype=float)
+    xp_ = np.array([*(lo + sub), *ang], dtype=float)
+    o = build(data, tmpl, order=3 if variant == "rigid" else int(rng.choice([1, 3])))      # full mask: see ASSUMPTIONS
+    return o, xp_, keep
 
 
 def _sec_planted(ctx, mo, reg, fam, rng, n_scene, n_comp):
     from scipy.spatial.transform import Rotation
+    n_pres = {}
     for s in range(n_scene):
         data, coords, w = _scene(rng)
         ang0 = rng.uniform(-40, 40, 3)
@@ -630,38 +1105,107 @@ def _sec_planted(ctx, mo, reg, fam, rng, n_scene, n_comp):
                 variants = [("identity", None, None), ("subvoxel", None, None), ("rigid", None, None)]
             for vname, cc, xp in variants:
                 negate = name not in DISTANCES
-                with _quiet():
-                    if fam[name] == "d2d":
-                        o, xp = _flc_planted(mo, rng, data, vname)
-                        cc = coords
-                    elif fam[name] == "c2c":
-                        o = _make(mo, name, "c2c", data, cc, w, "none", negate, tcoords=coords)
-                    else:
-                        o = _make(mo, name, "c2d", data, cc, w, "full", negate)
-                sp = _val(o.score(tuple(xp)))[0]
-                comps = _competitors(rng, xp, n_comp, data.shape[0])
-                if fam[name] == "d2d":   # the pose with the fractional part mirrored about the voxel
-                    fr = xp[:3] - np.trunc(xp[:3])
-                    comps.append(tuple(np.concatenate([np.trunc(xp[:3]) - fr, xp[3:]])))
-                    comps.append(tuple(np.concatenate([np.trunc(xp[:3]) + 2 * (fr > 0) - fr, xp[3:]])))
-                vals = np.array([_val(o.score(x))[0] for x in comps])
+                # the same experiment as another caller would set it up: sign convention, absolute intensities, arrays in other
+                # layouts / dtypes / read-only, interpolation order, more target points than template points.  Only what
+                # leaves the generating pose optimal by the score's own definition: offsets for the scores that are
+                # bounded by Cauchy-Schwarz / are sums of squares / are invariant under them; higher orders likewise.
+                pres = bool(rng.random() < 0.5)
+                P, sc, off, kw, unit, extra_t = None, 1.0, 0.0, {}, 1.0, 0
+                if pres:
+                    P = _Pres(rng)
+                    negate = bool(rng.random() < 0.5)
+                    n_pres[name] = n_pres.get(name, 0) + 1
+                    sc = [1e-9, 1e3, 1.0, 1e-3, 1e2][n_pres[name] % 5]       # every amplitude for every score in every run
+                    if fam[name] == "d2d" and sc < 1e-3:
+                        # the low-variance guard of the density score is the machine epsilon of the target's dtype: float32
+                        # targets of amplitude 1e-9 are below it by design of the guard (score 0 everywhere) - float64 here
+                        P.role["target"] = (P.role["target"][0], "f8")
+                    if name in ("NormalizedCrossCorrelation", "PartialLeastSquareDifference", "MutualInformation"):
+                        off = float(rng.choice([0.0, 0.5, 5.0, -2.0])) * sc
+                    if name in ("NormalizedCrossCorrelation", "PartialLeastSquareDifference") and rng.random() < 0.6:
+                        kw["interpolation_order"] = int(rng.choice([0, 3]))
+                    if name == "Chamfer" and rng.random() < 0.6:
+                        extra_t = int(rng.integers(1, 40))
+                    ctx.count("planted:presented")
+                if name in ("CrossCorrelation", "LaplaceCrossCorrelation"):
+                    unit = sc * sc
+                elif name == "PartialLeastSquareDifference":
+                    unit = (sc + abs(off)) ** 2
+                lower_better = negate != (name in DISTANCES)
+                sgn = 1.0 if lower_better else -1.0
+                # another experiment of the same class with arrays of identical shapes and dtypes but other content, evaluated at
+                # the same pose just before, kept alive or dropped (address re-use): a cache keyed by shape / id() / pose /
+                # class would hand its state to the object under test
+                decoy = str(rng.choice(["none", "keep", "drop"]))
+                kept = []
+                rev = (slice(None, None, -1),) * 3
+                try:
+                    with _quiet():
+                        if fam[name] == "d2d":
+                            fp = None
+                            if pres:
+                                fp = (P, sc, float(rng.choice([0.0, 0.5])) * sc, str(rng.choice(["none", "ones", "box"])), negate)
+                                off = fp[2]
+                            o, xp, kept = _flc_planted(mo, rng, data, vname, fp, None if decoy == "none" else decoy)
+                            cc = coords
+                        elif fam[name] == "c2c":
+                            tcs, tws = coords, w
+                            if extra_t:     # the target has points of its own besides the template's
+                                tcs = np.concatenate([coords, rng.uniform(0, data.shape[0], (3, extra_t))], axis=1)
+                                tws = np.concatenate([w, rng.random(extra_t)])
+                            if decoy != "none":
+                                d_ = _make(mo, name, "c2c", data, cc[:, ::-1] + 3.0, w[::-1], "none", negate, tcoords=tcs[:, ::-1] + 5.0,
+                                           tweights=tws[::-1], P=P)
+                                d_.score(tuple(xp))
+                                kept.append(d_ if decoy == "keep" else None)
+                                del d_
+                            o = _make(mo, name, "c2c", data, cc, w, "none", negate, tcoords=tcs, tweights=tws, P=P)
+                        else:
+                            if decoy != "none":
+                                d_ = _make(mo, name, "c2d", (data * sc + off)[rev], np.ascontiguousarray(cc[:, ::-1]), (w * sc + off)[::-1],
+                                           "full", negate, P=P, tmask=(data > 0.05)[rev], **kw)
+                                d_.score(tuple(xp))
+                                kept.append(d_ if decoy == "keep" else None)
+                                del d_
+                            o = _make(mo, name, "c2d", data * sc + off, cc, w * sc + off, "full", negate, P=P, tmask=data > 0.05, **kw)
+                    sp = sgn * _val(o.score(tuple(xp)))[0]
+                    comps = _competitors(rng, xp, n_comp, data.shape[0])
+                    if fam[name] == "d2d":   # the pose with the fractional part mirrored about the voxel
+                        fr = xp[:3] - np.trunc(xp[:3])
+                        comps.append(tuple(np.concatenate([np.trunc(xp[:3]) - fr, xp[3:]])))
+                        comps.append(tuple(np.concatenate([np.trunc(xp[:3]) + 2 * (fr > 0) - fr, xp[3:]])))
+                    # sp, vals: the score in the orientation 'lower is better' whatever the caller's sign convention
+                    vals = sgn * np.array([_val(o.score(x))[0] for x in comps])
+                except Exception as e:  # noqa
+                    ctx.spec("every registered score evaluates through score(x) to a finite value",
+                             {"score": name, "variant": vname, "negate_score": negate, "shape": data.shape, "decoy": decoy,
+                              "arrays": None if P is None else P.describe(), "scale": sc, "offset": off, "options": kw},
+                             False, f"{type(e).__name__}: {e}", key=f"callable:{name}")
+                    continue
+                ctx.count("planted:decoy=" + decoy)
                 # 'best within tolerance': in value (0.2 %, interpolated rigid templates 0.5 %) against poses that are
                 # really different, and 5 % against near neighbours (< 0.5 voxel and < 5 degrees away), whose
                 # advantage is interpolation error
                 d = np.abs(np.array(comps) - np.asarray(xp)[None, :])
                 near = (d[:, :3].max(axis=1) < 0.5) & (d[:, 3:].max(axis=1) < 5.0)
                 rt = np.where(near, PLANTED_RTOL_NEAR, (2.5 if vname == "rigid" else 1.0) * PLANTED_RTOL)
-                margin = vals - (sp - (rt * abs(sp) + 1e-6))     # < 0: beats the planted pose beyond the tolerance
+                margin = vals - (sp - (rt * abs(sp) + 1e-6 * unit))     # < 0: beats the planted pose beyond the tolerance
                 better = int((margin < 0).sum())
                 worst = int(margin.argmin())
                 inp = {"score": name, "variant": vname, "negate_score": negate, "shape": data.shape, "points": int(cc.shape[1]),
                        "planted_pose": [float(v) for v in xp],
                        "best_competitor": [float(v) for v in comps[worst]]}
+                inp["decoy_before"] = decoy
+                if pres:
+                    inp.update({"arrays": P.describe(), "scale": sc, "offset": off, "options": kw, "extra_target_points": extra_t})
                 ctx.spec("similarity scores are best (within tolerance) at the generating pose", inp, better == 0,
-                         {"planted": sp, "best_other": float(vals[worst]), "near": bool(near[worst]), "n_better": better, "of": len(vals)},
+                         {"planted": sgn * sp, "best_other": float(sgn * vals[worst]), "near": bool(near[worst]), "n_better": better,
+                          "of": len(vals)},
                          key=f"planted-best:{name}:{vname}")
                 if name in DISTANCES:
-                    ctx.spec("distance scores vanish at the generating pose", inp, abs(sp) <= 1e-3, {"planted": sp},
+                    # interpolated values and weights are the same float32 numbers up to the error of the transformed
+                    # coordinates (1e-5 voxel x gradient ~ amplitude): squared and summed, proportional to amplitude^2
+                    ctx.spec("distance scores vanish at the generating pose", inp, abs(sp) <= 1e-3 * unit, {"planted": sgn * sp},
                              key=f"planted-zero:{name}:{vname}")
                 # normalised similarity scores attain their bound there (Cauchy-Schwarz equality; a constant score
                 # would satisfy 'best' vacuously)
@@ -669,11 +1213,14 @@ def _sec_planted(ctx, mo, reg, fam, rng, n_scene, n_comp):
                          ("MaskedCrossCorrelation", "moved+0.001"): 1e-3, ("FLC", "identity"): 1e-4,
                          ("FLC", "subvoxel"): 0.05, ("FLC", "rigid"): 0.05}.get((name, vname))
                 if bound is not None:
+                    if name == "FLC" and off:
+                        # float32 variance by E[x^2] - E[x]^2: relative error ~ eps32 (1 + mean^2 / variance), a few terms
+                        bound += 32 * float(np.finfo(np.float32).eps) * (1 + (off + 0.5 * sc) ** 2 / (0.1 * sc) ** 2)
                     ctx.spec("normalised similarity scores attain -1 at the generating pose", inp, abs(sp + 1.0) <= bound,
-                             {"planted": sp}, key=f"planted-value:{name}:{vname}")
+                             {"planted": sgn * sp}, key=f"planted-value:{name}:{vname}")
                 ctx.count(f"planted:{vname}")
                 ctx.distinct(("planted", name, vname, s, ctx.seed))
-        ctx.sample({"check": "planted", "score": name, "variant": vname, "planted_value": sp, "best_other": float(vals.min())}, limit=5)
+        ctx.sample({"check": "planted", "score": name, "variant": vname, "planted_value": sgn * sp, "best_other": float(sgn * vals.min())}, limit=5)
 
 
 # ------------------------------------------------------------------------------------------------
@@ -719,6 +1266,18 @@ class _Spy:
             setattr(self.mo, k, v)
 
 
+class _Bowl:
+    """a caller's own score object: only `score(x)` (x by keyword, as optimize_match calls it); minimum `p`"""
+
+    def __init__(self, p):
+        self.p = np.asarray(p, dtype=float)
+        self.scale = np.array([1, 1, 1, 0.05, 0.05, 0.05])
+
+    def score(self, x):
+        d = (np.asarray(x, dtype=float) - self.p) * self.scale
+        return float(np.dot(d, d))
+
+
 def _consts():
     fi = np.finfo(np.float32)
     return {"fmin": _micro(fi.min), "fmax": _micro(fi.max), "res": _micro(fi.resolution), "half": _micro(180), "ndim": 3}
@@ -761,6 +1320,17 @@ def _sec_optimize(ctx, mo, rng, n_stub, n_real):
         objs["Chamfer"] = _make(mo, "Chamfer", "c2c", data, coords, w, "none", negate=False)
         objs["FLC"] = _make_any(mo, "FLC", "d2d", data, coords, w, "full")
         objs["CrossCorrelation+grad"] = _make(mo, "CrossCorrelation", "c2d", data, coords, w, "none", return_gradient=True)
+    # 'score_object: class object that defines a score method': a caller's own object (no return_gradient, no grad),
+    # a quadratic bowl whose minimum lies inside / outside / on the edge of the boxes drawn below
+    objs["user:bowl"] = _Bowl(np.concatenate([rng.normal(0, 1.5, 3), rng.normal(0, 8, 3)]))
+    objs["user:bowl-far"] = _Bowl(np.concatenate([rng.choice([-1, 1], 3) * rng.uniform(6, 12, 3), rng.choice([-1, 1], 3) * rng.uniform(40, 170, 3)]))
+    fresh = {}
+    with _quiet():
+        fresh["CrossCorrelation"] = lambda: _make(mo, "CrossCorrelation", "c2d", data, coords, w, "none")  # noqa
+        fresh["NormalizedCrossCorrelation"] = lambda: _make(mo, "NormalizedCrossCorrelation", "c2d", data, coords, w, "none")  # noqa
+        fresh["Chamfer"] = lambda: _make(mo, "Chamfer", "c2c", data, coords, w, "none", negate=False)  # noqa
+        fresh["FLC"] = lambda: _make_any(mo, "FLC", "d2d", data, coords, w, "full")  # noqa
+        fresh["CrossCorrelation+grad"] = lambda: _make(mo, "CrossCorrelation", "c2d", data, coords, w, "none")  # noqa
     C = _consts()
     fi = np.finfo(np.float32)
     ctx.obligation("optimize_match constants (float32 min/max/resolution in 1e-6 units, +-180 deg, ndim 3)",
@@ -770,7 +1340,8 @@ def _sec_optimize(ctx, mo, rng, n_stub, n_real):
     def one(real, i):
         name = str(rng.choice(list(objs)))
         if real:
-            name = str(rng.choice(["CrossCorrelation", "NormalizedCrossCorrelation", "Chamfer", "FLC", "CrossCorrelation+grad"]))
+            name = str(rng.choice(["CrossCorrelation", "NormalizedCrossCorrelation", "Chamfer", "FLC", "CrossCorrelation+grad",
+                                   "user:bowl", "user:bowl-far"], p=[0.18, 0.18, 0.14, 0.14, 0.16, 0.1, 0.1]))
         o = objs[name]
         if hasattr(o, "return_gradient"):
             o.return_gradient = name.endswith("+grad")
@@ -815,10 +1386,13 @@ def _sec_optimize(ctx, mo, rng, n_stub, n_real):
         if hasattr(o, "return_gradient"):
             o.return_gradient = name.endswith("+grad")
         np.random.seed(int(rng.integers(1 << 30)))
+        # the start as the caller may hand it over: tuple (documented), list, float64 array
+        x0c, ck = (None, "none") if x0 is None else _container(rng, x0, kinds=("tuple", "tuple", "list", "f8"))
+        inp["x0_container"] = ck
         try:
             with _quiet(), _Spy(mo, None if real else stub) as spy:
                 tr, R, sc = mo.optimize_match(o, bounds_translation=bt, bounds_rotation=br, optimization_method=method,
-                                              maxiter=int(rng.integers(1, 4)) if real else 2, x0=x0)
+                                              maxiter=int(rng.integers(1, 4)) if real else 2, x0=x0c)
         except Exception as e:  # noqa
             ctx.spec("optimize_match returns", inp, False, f"{type(e).__name__}: {e}", key=f"opt:raised:{method}")
             return
@@ -882,16 +1456,31 @@ def _sec_optimize(ctx, mo, rng, n_stub, n_real):
         one(False, i)
     for i in range(n_real):
         one(True, i)
+    # the score objects have been through hundreds of optimiser runs: their values are still those of fresh objects
+    for name, mk in fresh.items():
+        o = objs[name]
+        if hasattr(o, "return_gradient"):
+            o.return_gradient = False
+        with _quiet():
+            B = mk()
+        for k in range(4):
+            x = _flc_pose(rng, "inside", (8, 8, 8), data.shape) if name == "FLC" else _rand_pose(rng, str(rng.choice(["small", "large", "int"])), 16)
+            va, vb = _val(o.score(x)), _val(B.score(x))
+            ctx.spec("score(x) does not depend on the poses evaluated before",
+                     {"score": name, "history": f"{n_stub + n_real} optimize_match runs on this object", "pose": x},
+                     _same(va, vb), {"history": va[0], "fresh": vb[0]}, key=f"repeat:{name.split('+')[0]}")
+        ctx.count("opt:after-runs-vs-fresh")
 
 
 # ------------------------------------------------------------------------------------------------
-def _structure(coords):
+def _structure(coords, elements=None):
     from tme import Structure
     n = len(coords)
-    return Structure(record_type=["ATOM"] * n, atom_serial_number=list(range(n)), atom_name=["C"] * n, atom_coordinate=coords,
+    el = ["C"] * n if elements is None else list(elements)
+    return Structure(record_type=["ATOM"] * n, atom_serial_number=list(range(n)), atom_name=el, atom_coordinate=coords,
                      alternate_location_indicator=["."] * n, residue_name=["GLY"] * n, chain_identifier=["A"] * n,
                      residue_sequence_number=list(range(n)), code_for_residue_insertion=["?"] * n, occupancy=[1.0] * n,
-                     temperature_factor=[0.0] * n, segment_identifier=["1"] * n, element_symbol=["C"] * n, charge=["?"] * n,
+                     temperature_factor=[0.0] * n, segment_identifier=["1"] * n, element_symbol=el, charge=["?"] * n,
                      metadata={})
 
 
@@ -937,27 +1526,67 @@ def _sec_kabsch(ctx, rng, n_cases):
     import tme.structure as ts
     for i in range(n_cases):
         kind = str(rng.choice(["general", "general", "planar", "collinear", "coincident"]))
-        n = int(rng.integers(3, 40))
+        r_ = rng.random()
+        # atom counts: the usual few dozen; one and two atoms (every point set is degenerate); thousands, and more than 10 000
+        n = int(rng.integers(1, 3)) if r_ < 0.08 else int(rng.choice([2000, 10007])) if (r_ > 0.995 or (ctx.thorough and r_ > 0.98)) \
+            else int(rng.integers(3, 40))
+        if i < 2:
+            n = (10007, 2000)[i]         # every run has a structure beyond 10 000 atoms
         scale = float(rng.choice([1, 10, 100]))
         dt = np.float64 if rng.random() < 0.6 else np.float32
-        c = _points(rng, kind, n, scale).astype(dt)
+        c = _points(rng, kind, n, scale)
+        if rng.random() < 0.1:
+            c = c + rng.choice([-1, 1], 3) * 1e4      # far from the origin, as in large assemblies
+        c = c.astype(dt)
         R, rk = _rand_rotation(rng)
         t = rng.normal(0, 3 * scale, 3) if rng.random() < 0.85 else np.zeros(3)
-        s = _structure(c)
+        # the motion as callers write it: rotation matrix in float32 (what euler_to_rotationmatrix returns) or float64,
+        # translation as array / tuple / list; about the centre of mass (default) or the 'geometric centre'
+        r32 = bool(rng.random() < 0.2)
+        if r32:
+            R = R.astype(np.float32)
+        tk = str(rng.choice(["array", "tuple", "list"], p=[0.6, 0.2, 0.2]))
+        tc = t if tk == "array" else tuple(float(v) for v in t) if tk == "tuple" else [float(v) for v in t]
+        geo = bool(rng.random() < 0.15)
+        lay = str(rng.choice(["C", "F", "readonly", "strided"], p=[0.55, 0.15, 0.15, 0.15]))
+        elements = [str(e) for e in rng.choice(["C", "N", "O", "S", "H", "P"], n)] if rng.random() < 0.5 else None
+        weighted = bool(rng.random() < 0.3)
+        origin = None if rng.random() < 0.7 else rng.normal(0, scale, 3)
+        s = _structure(_present(c, lay), elements)
         mag = float(np.abs(c).max()) + float(np.abs(t).max()) + 1.0
         tol = (1e-4 if dt == np.float32 else 1e-9) * mag
-        inp = {"points": kind, "n": n, "dtype": np.dtype(dt).name, "rotation": rk, "R": R, "t": t, "coords": c[:6]}
+        if r32:
+            # a float32 rotation matrix is orthogonal up to 2^-24 per entry: the image is a rigid copy up to ~2e-7 x extent
+            tol = max(tol, 2e-6 * mag)
+        Rf = np.asarray(R, dtype=np.float64)
+        inp = {"points": kind, "n": n, "dtype": np.dtype(dt).name, "rotation": rk, "R": Rf, "t": t, "coords": c[:6],
+               "rotation_dtype": "float32" if r32 else "float64", "translation_as": tk, "use_geometric_center": geo,
+               "layout": lay, "weighted": weighted, "origin": origin, "elements": None if elements is None else elements[:6]}
         # ---- rigid motion of the point set
-        with _quiet():
-            moved = s.rigid_transform(rotation_matrix=R, translation=t)
+        try:
+            with _quiet():
+                moved = s.rigid_transform(rotation_matrix=R, translation=tc, use_geometric_center=geo) if geo else \
+                    s.rigid_transform(rotation_matrix=R, translation=tc)
+        except Exception as e:  # noqa
+            ctx.spec("rigid_transform moves a point set by x -> R(x - c) + c + t (distances preserved)", inp, False,
+                     f"{type(e).__name__}: {e}", key="rigid_transform:coordinates")
+            continue
         mc = moved.atom_coordinate.astype(float)
         cf = c.astype(float)
-        want = (R @ (cf - cf.mean(0)).T).T + cf.mean(0) + t
-        dm = lambda a: np.linalg.norm(a[:, None, :] - a[None, :, :], axis=-1)  # noqa
-        ok = np.abs(mc - want).max() <= tol and np.abs(dm(mc) - dm(cf)).max() <= 4 * tol
-        ctx.spec("rigid_transform moves a point set by x -> R(x - c) + c + t (distances preserved)", inp, ok,
-                 {"max_dev": float(np.abs(mc - want).max())}, key="rigid_transform:coordinates")
-        if dt == np.float64:
+        sub = slice(None) if n <= 300 else rng.permutation(n)[:300]
+        dm = lambda a: np.linalg.norm(a[sub][:, None, :] - a[sub][None, :, :], axis=-1)  # noqa
+        if geo:
+            # documented only as 'geometric instead of coordinate centre': whatever the centre, the image is R x + const
+            resid = mc - (Rf @ cf.T).T
+            dev = float(np.abs(resid - resid.mean(0)).max())
+            ok = dev <= 4 * tol and np.abs(dm(mc) - dm(cf)).max() <= 4 * tol
+        else:
+            want = (Rf @ (cf - cf.mean(0)).T).T + cf.mean(0) + t
+            dev = float(np.abs(mc - want).max())
+            ok = dev <= tol and np.abs(dm(mc) - dm(cf)).max() <= 4 * tol
+        ctx.spec("rigid_transform moves a point set by x -> R(x - c) + c + t (distances preserved)", inp, bool(ok),
+                 {"max_dev": dev}, key="rigid_transform:coordinates")
+        if dt == np.float64 and not r32 and n <= 300:
             out = np.empty_like(c.T)
             rigid_transform(coordinates=c.T.copy(), rotation_matrix=R, translation=t, out=out, use_geometric_center=False)
             mm = ctx.driver.call("c17.rigidCoords", R=[float(v) for v in R.reshape(-1)], t=[float(v) for v in t],
@@ -973,19 +1602,30 @@ def _sec_kabsch(ctx, rng, n_cases):
             rec["U"], rec["Vh"] = np.array(r[0]), np.array(r[2])
             return r
         np.linalg.svd = svd
+        akw = {}
+        if weighted:
+            akw["weighted"] = True
+        if origin is not None:
+            akw["origin"] = origin
         try:
             with _quiet():
-                al, rmsd = Structure.align_structures(moved, s)
-                al2, rmsd2 = Structure.align_structures(s, moved)
+                al, rmsd = Structure.align_structures(moved, s, **akw)
+                al2, rmsd2 = Structure.align_structures(s, moved, **akw)
+        except Exception as e:  # noqa
+            ctx.spec("aligning a structure to a rigidly moved copy reproduces the copy (RMSD ~ 0)", inp, False,
+                     f"{type(e).__name__}: {e}", key=f"kabsch:{kind}")
+            continue
         finally:
             np.linalg.svd = real_svd
         dev = float(np.abs(al.atom_coordinate.astype(float) - mc).max())
         dev2 = float(np.abs(al2.atom_coordinate.astype(float) - cf).max())
+        # a weighted RMSD multiplies the squared deviations by atomic weights (<= 33 for the elements used): sqrt(33) < 6
+        rtol_ = 6 * tol if weighted else tol
         ctx.spec("aligning a structure to a rigidly moved copy reproduces the copy (RMSD ~ 0)", inp,
-                 float(rmsd) <= tol and dev <= 4 * tol and float(rmsd2) <= tol and dev2 <= 4 * tol,
+                 float(rmsd) <= rtol_ and dev <= 4 * tol and float(rmsd2) <= rtol_ and dev2 <= 4 * tol,
                  {"rmsd": float(rmsd), "max_dev": dev, "rmsd_back": float(rmsd2), "max_dev_back": dev2, "tol": tol},
                  key=f"kabsch:{kind}")
-        if dt == np.float64 and "U" in rec:
+        if dt == np.float64 and "U" in rec and n <= 300:
             # last recorded SVD belongs to align_structures(s, moved): reference = s, query = moved
             mk = ctx.driver.call("c17.kabsch", U=[float(v) for v in rec["U"].reshape(-1)], Vh=[float(v) for v in rec["Vh"].reshape(-1)],
                                  reference=[[float(v) for v in p] for p in cf], query=[[float(v) for v in p] for p in mc])
@@ -995,6 +1635,8 @@ def _sec_kabsch(ctx, rng, n_cases):
                       bool(np.abs(al2.atom_coordinate - ma).max() <= 1e-8 * mag and abs(np.linalg.det(mr)) > 0 and np.linalg.det(mr) > -1e-9), True)
         ctx.count(f"kabsch:{kind}:{np.dtype(dt).name}")
         ctx.count(f"rotation:{rk}")
+        ctx.count(f"kabsch:n={'1-2' if n < 3 else '3-39' if n < 40 else 'thousands'}")
+        ctx.count(f"kabsch:R={'f4' if r32 else 'f8'}:t={tk}:geo={geo}:weighted={weighted}:origin={'given' if origin is not None else 'none'}")
         if rk != "identity" or np.any(t != 0):
             ctx.distinct(("kabsch", kind, n, scale, np.dtype(dt).name, rk, i))
     ctx.sample({"check": "kabsch", "points": kind, "n": n, "rotation": rk, "rmsd": float(rmsd), "max_dev": dev}, limit=7)
@@ -1066,11 +1708,13 @@ def run(ctx):
             first.append(traceback.format_exc())
     sec(_sec_windows, ctx, ctx.rng("windows"), ctx.budget(8, 14))
     sec(_sec_pose, ctx, mo, ctx.rng("pose"), ctx.budget(40, 300))
-    sec(_sec_interface, ctx, mo, reg, fam, ctx.rng("interface"), ctx.budget(3, 10))
+    sec(_sec_interface, ctx, mo, reg, fam, ctx.rng("interface"), ctx.budget(3, 10), ctx.budget(4, 16))
+    sec(_sec_registry, ctx, mo, reg, fam, ctx.rng("registry"), ctx.budget(4, 11))
     sec(_sec_history_coords, ctx, mo, reg, fam, ctx.rng("history"), ctx.budget(10, 100), ctx.budget(6, 9))
+    sec(_sec_interleaved, ctx, mo, reg, fam, ctx.rng("interleaved"), ctx.budget(40, 400), ctx.budget(5, 8))
     sec(_sec_history_flc, ctx, mo, ctx.rng("flc"), ctx.budget(100, 1500), ctx.budget(6, 9))
-    sec(_sec_planted, ctx, mo, reg, fam, ctx.rng("planted"), ctx.budget(6, 50), ctx.budget(50, 150))
-    sec(_sec_optimize, ctx, mo, ctx.rng("optimize"), ctx.budget(300, 4000), ctx.budget(30, 400))
+    sec(_sec_planted, ctx, mo, reg, fam, ctx.rng("planted"), ctx.budget(8, 50), ctx.budget(50, 150))
+    sec(_sec_optimize, ctx, mo, ctx.rng("optimize"), ctx.budget(300, 4000), ctx.budget(36, 400))
     sec(_sec_kabsch, ctx, ctx.rng("kabsch"), ctx.budget(300, 6000))
     if first:
         raise RuntimeError("section crashed:\n" + first[0])
@@ -1084,9 +1728,11 @@ def search(ctx):
     reg = dict(m2.MATCHING_OPTIMIZATION_REGISTER)
     fam = {k: ("c2d" if issubclass(v, m2._MatchCoordinatesToDensity) else "c2c" if issubclass(v, m2._MatchCoordinatesToCoordinates)
                else "d2d") for k, v in reg.items()}
-    _sec_interface(ctx, mo, reg, fam, ctx.rng("s-interface"), 6)
+    _sec_interface(ctx, mo, reg, fam, ctx.rng("s-interface"), 6, 12)
     _sec_history_coords(ctx, mo, reg, fam, ctx.rng("s-history"), 8, 10, names=[k for k in reg if fam[k] != "d2d"], agree=False)
     _sec_history_flc(ctx, mo, ctx.rng("s-flc"), 150, 10, agree=False)
+    _sec_interleaved(ctx, mo, reg, fam, ctx.rng("s-interleaved"), 60, 8)
+    _sec_registry(ctx, mo, reg, fam, ctx.rng("s-registry"), 11)
     _sec_planted(ctx, mo, reg, fam, ctx.rng("s-planted"), 8, 100)
     _sec_optimize(ctx, mo, ctx.rng("s-optimize"), 400, 10)
     _sec_kabsch(ctx, ctx.rng("s-kabsch"), 400)
